@@ -19,7 +19,7 @@ MIN = "min"
 PROPS = {
     "C01": {
         "ops": [("wrap", FF, 8000, 250000), ("wrap", MIN, 3000, 60000), ("wrap9", FF, 1500, 30000)],
-        "explanation": "stage theorems (word finding, splitting, force-breaking are lossless; the algorithm only groups) — the assembled statement about wrap's lines is in progress (Proofs/Pipeline.v); L2: a backtracking re-parse of every returned line as indent + slice of the text (+ inserted hyphen), slices in order, gaps only spaces/line endings, borrowed lines at their byte offset, no slice ending in a space outside the Unicode/force-break exception",
+        "explanation": "theorem C01_wrap: the text is its paragraphs joined by the line ending, every paragraph is the concatenation of body+gap segments (gaps all spaces), line i is indent+body_i+pen (pen empty or one hyphen), Borrowed at the byte offset of its body when indent and pen are empty, ASCII bodies never end in a space — for any partition oracle and any valid splitter (both proved for the reference instances); the Unicode trailing-space exception clause is checked by L2 only; L2: a backtracking re-parse of every returned line as indent + slice of the text (+ inserted hyphen), slices in order, gaps only spaces/line endings, borrowed lines at their byte offset, no slice ending in a space outside the Unicode/force-break exception",
         "assumptions": ["custom splitters return valid character boundaries"],
     },
     "C02": {
@@ -33,7 +33,7 @@ PROPS = {
                 ("wc", FF, 1500, 40000), ("dw", FF, 2000, 40000), ("fwa", FF, 1500, 30000), ("fwu", FF, 1500, 30000),
                 ("sw", FF, 1500, 30000), ("bw", FF, 1500, 30000), ("ba", FF, 1500, 30000), ("ff", FF, 1500, 30000),
                 ("of", FF, 1500, 30000), ("ffx", FF, 2000, 50000), ("ofx", FF, 2000, 50000), ("wsl", FF, 1500, 30000)],
-        "explanation": "totality theorems for fill_inplace, unfill, split_words (built-in splitters), optimal_fit (every Num), wrap_columns relative to wrap; wrap itself pending Proofs/Pipeline.v; the rest is exploration: every op under catch_unwind and a watchdog on the adversarial stream, debug build with overflow checks (release as well in the thorough tier), non-finite f64 fragments",
+        "explanation": "totality theorems for wrap and fill (every byte slice in range and on boundaries), fill_inplace, unfill, split_words (built-in splitters), optimal_fit (every Num), wrap_columns relative to wrap; functions whose model type has no option cannot fail in the model; the rest is exploration: every op under catch_unwind and a watchdog on the adversarial stream, debug build with overflow checks (release as well in the thorough tier), non-finite f64 fragments",
         "assumptions": ["memory exhaustion, stack depth and wall-clock time are outside the model and only measured"],
     },
     "C05": {
@@ -43,7 +43,7 @@ PROPS = {
     },
     "C08": {
         "ops": [("wrap", FF, 6000, 150000), ("wrap8", FF, 6000, 150000), ("wrap", MIN, 2000, 40000), ("wrap8", MIN, 2000, 40000)],
-        "explanation": "theorem C08_indents for every text/option/oracle; the second half (what follows the indent depends only on the indents' widths and emptiness) is checked by L2 on pairs of runs with substituted indents and by L1",
+        "explanation": "theorems C08_indents (every line starts with its indent, for every text/option/oracle) and C08_rest_independent_of_indent_characters (SameShape options give the same rests and Cow kinds); L2 checks both on the implementation, the second on pairs of runs with substituted indents",
         "assumptions": [],
     },
     "C13": {
@@ -57,7 +57,7 @@ PROPS = {
         "assumptions": ["reading of the optimal-fit clause as in DESIGN.md §6/C14"],
     },
     "C03": {
-        "ops": [("of", FF, 12000, 400000), ("wrap", FF, 4000, 150000), ("fill2", FF, 2000, 50000)],
+        "ops": [("of", FF, 12000, 400000), ("wrap", FF, 4000, 150000), ("wsl", FF, 4000, 100000), ("fill2", FF, 2000, 50000)],
         "explanation": "theorems: the DP value is a lower bound for EVERY arrangement (Bellman, <=2 line widths), attained by back-tracking any true column minima (conditional on ColMin for smawk, which is not proved), the reference search satisfies ColMin, three widths are a counterexample, wrap hands exactly two widths to the algorithm; L1/L2: exact cost (Q) of the implementation's arrangement = the DP optimum for every generated fragment list inside the precondition, and for every paragraph partition recorded at the wrap level",
         "assumptions": ["ColMin: smawk::online_column_minima returns true column minima on this matrix — NOT proved, exercised on every generated case by the exact-cost comparison"],
     },
